@@ -336,6 +336,20 @@ def w_random(seeds):
         root = big_tree(rnd) if seed % 60 == 59 else random_tree(rnd, rnd.randint(1, 40))
         for e in roundtrip_events(root, at, conv, {"seed": seed}):
             evs.append(e)
+        # "any tree": also the subtree of an inner node, saved while it hangs in the larger model (its parent link set, a
+        # tail of its own), and the same node after remove_child (the parent pointer stays behind)
+        inner = [x for x in tracked(root).nodes if x is not root and x.parent is not None]
+        if inner and seed % 60 != 59:
+            x = inner[seed % len(inner)]
+            if x.tail is None:
+                x.tail = rtext(rnd) or " tail "
+            evs += roundtrip_events(x, Atoms(), conv, {"seed": seed, "saved": "inner node, attached"})
+            y = inner[(seed // 7) % len(inner)]
+            if y.tail is None:
+                y.tail = "\n  "
+            if y in y.parent.children:
+                y.parent.remove_child(y)
+                evs += roundtrip_events(y, Atoms(), conv, {"seed": seed, "saved": "inner node, detached with remove_child"})
     return evs
 
 
